@@ -175,7 +175,7 @@ pub fn classify(text: &str) -> Option<&'static str> {
             for (i, ch) in b.iter().enumerate() {
                 if *ch == b'(' {
                     // a grouping paren: not directly after an identifier char (call/fun parameter list)
-                    let prev = l[..i].trim_end().chars().last().unwrap_or(' ');
+                    let prev = l[..i].chars().last().unwrap_or(' ');
                     if !(prev.is_alphanumeric() || prev == '_') {
                         depth_open.push(i);
                     } else {
